@@ -106,11 +106,60 @@ def _rest_of_host(site):
     return _REST[site]
 
 
+SQL_SITES = ['table_note', 'column_note', 'expr_default', 'index_expr']
+
+
+def _sql_case(it, rec):
+    """object carrying the text -> .sql -> DDL reader -> the raw body of the literal / expression"""
+    from pydbml import PyDBML
+    from pydbml.classes import Note, Expression, Index
+    from . import ddl
+    text = ''.join(it['t'])
+    site = it['site']
+    db = PyDBML("Table t {\n  id int\n  z int\n}\n")
+    t = db.tables[0]
+    if site == 'table_note':
+        t.note = Note(text)
+    elif site == 'column_note':
+        t.columns[0].note = Note(text)
+    elif site == 'expr_default':
+        t.columns[0].default = Expression(text)
+    else:
+        t.add_index(Index(subjects=[Expression(text), t.columns[1]]))
+    sql = db.sql
+    rec['_src'] = sql
+    st = ddl.read(sql)
+    expect_rest = ['table'] + (['comment'] if site.endswith('note') else []) + (['index'] if site == 'index_expr' else [])
+    rec['rest'] = sorted(s['k'] for s in st) == sorted(expect_rest)
+    if site == 'table_note':
+        body = [s for s in st if s['k'] == 'comment' and s['what'] == 'TABLE' and s['target'] == ['t']][0]['text']
+    elif site == 'column_note':
+        body = [s for s in st if s['k'] == 'comment' and s['what'] == 'COLUMN' and s['target'] == ['t', 'id']][0]['text']
+    elif site == 'expr_default':
+        d = [s for s in st if s['k'] == 'table'][0]['cols'][0]['def']
+        rec['rest'] = rec['rest'] and d.startswith('(') and d.endswith(')')
+        body = d[1:-1]
+    else:
+        sj = [s for s in st if s['k'] == 'index'][0]['subj']
+        rec['rest'] = rec['rest'] and len(sj) == 2 and sj[0]['k'] == 'expr' and sj[1] == {'k': 'col', 'v': 'z'}
+        body = sj[0]['v']
+    rec['ok'] = True
+    rec['stored'] = list(body)
+
+
 def _exec_chunk(items):
     from pydbml import PyDBML
     from . import project as pj
     out = []
     for it in items:
+        if it['route'] == 'sql':
+            rec = {'tid': it['tid'], 't': it['t'], 'site': it['site'], 'route': 'sql', 'style': 'none', 'ok': False, 'stored': [], 'rest': True}
+            try:
+                _sql_case(it, rec)
+            except Exception as ex:
+                rec['_err'] = '%s: %s' % (type(ex).__name__, str(ex)[:200])
+            out.append(rec)
+            continue
         text = ''.join(it['t'])
         site = it['site']
         rec = {'tid': it['tid'], 't': it['t'], 'site': site, 'route': it['route'], 'style': it['style'],
@@ -200,6 +249,9 @@ def main(argv: List[str]) -> int:
                 items[tid] = {'tid': tid, 't': t, 'site': site, 'route': 'authored', 'style': style, 'lit': lits[style]}
             tid += 1
             items[tid] = {'tid': tid, 't': t, 'site': site, 'route': 'rendered', 'style': 'none', 'lit': []}
+        for site in SQL_SITES:
+            tid += 1
+            items[tid] = {'tid': tid, 't': t, 'site': site, 'route': 'sql', 'style': 'none', 'lit': []}
     chunks = core.chunked(list(items.values()), core.NCPU * 4)
     recs: List[Dict[str, Any]] = []
     for part in core.pmap(_exec_chunk, chunks):
